@@ -67,7 +67,7 @@ func (c *Ctx) infixRegistrations() ([]opReg, bool) {
 }
 
 func checkC06(c *Ctx) {
-	c.explainf("C06 decides the operator table and the climbing loop: every operator the property names is registered in InitInfixOps with the constructor that gives its associativity (assignments, ** and and/or recurse with bp-1, the others with bp, not is a prefix operator); the classes are strictly ordered assignment < comma < or/and < comparisons < + - < * / mod < ** < not < indexing/field access and operators within a class share one binding power; the precedence loop continues exactly while the right binding power is below the next token's left binding power, which is the registered power (80 for arrays and dotted symbols, the comma's own value, 0 for if); every registered operator spelled with operator characters is in the lexer's operator regex or has a dedicated lexer state. It does not decide sign-vs-operator classification of + and -, statement splitting, the go-style for lowering, or value equality with the prefix form.")
+	c.explainf("C06 decides the operator table and the climbing loop: every operator the property names is registered in InitInfixOps with the constructor that gives its associativity (assignments, ** and and/or recurse with bp-1, the others with bp, not is a prefix operator); the classes are strictly ordered assignment < comma < or/and < comparisons < + - < * / mod < ** < not < indexing/field access and operators within a class share one binding power; the precedence loop continues exactly while the right binding power is below the next token's left binding power, which is the registered power (80 for arrays and dotted symbols, the comma's own value, 0 for if); every registered operator spelled with operator characters is in the lexer's operator regex or has a dedicated lexer state. The prefix runes are in the sign-context set, ParseInfix keeps a sign that follows an operand away from the Inf fusion (C06-INF), and the colon DecodeAtom sets aside is emitted after non-symbol atoms (C06-COLON). It does not decide sign-vs-operator classification of + and -, statement splitting, the go-style for lowering, or value equality with the prefix form.")
 	regs, _ := c.infixRegistrations()
 	if len(regs) < 20 {
 		c.undecided("C06-TAB", "Zlisp.InitInfixOps", "registrations", token.NoPos, fmt.Sprintf("only %d operator registrations with constant arguments found", len(regs)))
